@@ -138,7 +138,8 @@ impl Session {
             padding: Arc::new(RwLock::new(padding)),
             is_client: true,
             send_padding: true,
-            pkt_counter: Arc::new(std::sync::atomic::AtomicU32::new(0)),
+            // packet 0 is the authentication preamble; session packets start at 1
+            pkt_counter: Arc::new(std::sync::atomic::AtomicU32::new(1)),
             peer_version: Arc::new(std::sync::atomic::AtomicU8::new(0)),
             seq: Arc::new(std::sync::atomic::AtomicU64::new(0)),
             buffering: Arc::new(std::sync::atomic::AtomicBool::new(false)),
